@@ -97,7 +97,6 @@ class Lock:
         self.f.close()
 
 
-<<<<<<< HEAD
 NETNS_PREFIX = ["unshare", "-n", "sh", "-c", 'ip link set lo up && exec "$@"', "sh"]
 _netns = None
 
@@ -114,8 +113,6 @@ def netns_available():
     return _netns
 
 
-=======
->>>>>>> b-c03
 class GlobalLock:
     def __init__(self, path):
         self.path = path
@@ -335,7 +332,6 @@ def run_harness(ctx, pkg, test, ops, timeout=900, extra_env=None, race=False, ta
     cmd.append("./" + pkg + "/")
     # cmd/keymasterd's own dependency_monitor_test.go init() listens on a fixed port: two test
     # binaries of that package must never run at the same time on this machine -> global flock.
-<<<<<<< HEAD
     # cmd/keymasterd's own dependency_monitor_test.go init() listens on a fixed port (10638): two
     # test binaries of that package must never share a loopback. Preferred: a private network
     # namespace per run (no lock, runs in parallel); fallback: a machine-wide flock + retry.
@@ -350,18 +346,6 @@ def run_harness(ctx, pkg, test, ops, timeout=900, extra_env=None, race=False, ta
                 time.sleep(3 + 4 * attempt)
                 continue
             break
-=======
-    for attempt in range(4):
-        with GlobalLock("/tmp/.verif-gotest.lock"):
-            rc, log = sh(cmd, cwd=REPO, env=env, timeout=timeout + 120)
-        # a test binary started outside this lock (baseline run, another tool) may hold the port:
-        # that is an environment collision, not a result -> retry
-        if rc != 0 and not os.path.exists(out_path) and (
-                "dependency_monitor_test.go" in log or "address already in use" in log):
-            time.sleep(3 + 4 * attempt)
-            continue
-        break
->>>>>>> b-c03
     lines = []
     if os.path.exists(out_path):
         lines = open(out_path).read().split("\n")
